@@ -29,7 +29,7 @@ RULE = (
 ASSUMPTIONS = [
     "classes whose own __init__ is hand-written are outside the statement; hand-written constructors appear on parents only",
     "'nearest default along the MRO' is read literally: the first class in type(obj).__mro__ whose own namespace gives the name a plain value or an Attr/field default",
-    "passing the overflow attribute's own name as a keyword is not generated; Attr flags other than init are not asserted here",
+    "Attr flags other than init are not asserted here",
 ]
 
 NAMES = ["a", "b", "c", "d", "e", "f"]
@@ -109,7 +109,7 @@ def gen_hierarchy(src):
     for c in classes:
         if c["kind"] == "plain" and root["attrs"]:
             c["redefaults"].pop(root["attrs"][0]["name"], None)  # the (potential) key is never re-defaulted by a plain class
-    if src.chance(1, 3) and root["attrs"] and not root.get("user_init"):
+    if src.chance(1, 3) and root["attrs"]:
         k = root["attrs"][0]
         k["type"] = "str"
         k.pop("init", None)
@@ -119,14 +119,17 @@ def gen_hierarchy(src):
         root["prepare"].pop(k["name"], None)
     last = classes[-1]
     if src.chance(1, 4):
-        last["overflow"] = "extra"
+        (root if len(classes) > 1 and root["kind"] == "spec" and not root.get("user_init") and src.chance(1, 2) else last)["overflow"] = "extra"
     # re-declare / re-default inherited attributes in non-root classes
     for c in classes[1:]:
         if c["kind"] != "spec":
             continue  # undecorated classes only re-default (below / at creation), they declare nothing
         inherited = _inherited(classes, c)
         for name, (T, owner) in inherited.items():
-            if classes[0].get("key") == name:
+            if classes[0].get("key") == name and classes[0].get("user_init"):
+                # a child that takes over the key of a parent with a hand-written constructor: that constructor is then handed
+                # the MISSING placeholder for its key parameter (pinned by the repository's own test-suite) - what it does with
+                # it is its own business, so this shape has no model
                 continue
             r = src.choice(6)
             if r == 0:
@@ -319,7 +322,10 @@ class Model:
         return None
 
     def overflow(self):
-        return self.by[self.spec_cls].get("overflow")
+        for n in self.mro:  # the overflow attribute is class configuration: inherited like the key
+            if self.by[n].get("overflow"):
+                return self.by[n]["overflow"]
+        return None
 
     def construct(self, kwargs):
         """returns ("ok", state) | ("raise", TypeError)"""
@@ -495,6 +501,10 @@ def kwarg_sets(desc):
         out.append(({n: VALS[model.attr_info(n)[0]][1]}, False))
     out.append(({"zzz": 1}, False))
     out.append((dict({names[0]: vals[names[0]]} if names else {}, zzz=1, yyy="s"), False))
+    if model.overflow():
+        # a keyword named like the overflow attribute itself is an unknown keyword like any other
+        out.append(({model.overflow(): {"q": 1}, "zzz": 3}, False))
+        out.append((dict({n: vals[n] for n in names}, **{model.overflow(): {"q": 1}}), False))
     noinit = [n for n in model.all_attrs() if not model.attr_info(n)[2]]
     for n in noinit:
         out.append(({n: 1}, False))
